@@ -142,7 +142,7 @@ def b0_shapes(ctx):
 
 
 def run(ctx):
-    M = mmio.Model(ctx.F)
+    M = mmio.Model(ctx.F, strict=False)
     for line, msg in M.problems:
         raise AnalysisBroken('C12: MMIORegion::MMIORegion line %s: %s' % (line, msg))
     ctx.require(len(M.cells) >= 105, 'MMIO binding table has only %d cells' % len(M.cells))
